@@ -658,3 +658,18 @@ func RunRaw(body func()) (crash string) {
 	body()
 	return ""
 }
+
+// RawDo runs f in raw mode (shim operations are not points and take no locks): the harness uses it to read
+// library getters at a precise moment without adding scheduling points.
+//
+//go:norace
+func RawDo(f func()) {
+	s := S
+	if s == nil || s.aborting {
+		return
+	}
+	old := s.raw
+	s.raw = true
+	f()
+	s.raw = old
+}
